@@ -252,6 +252,8 @@ def check_coupled(sc):
     gg = GrainGrowthModel(1e-6, 1e-4, 60, 40, 100, solverType=SolverType.EXPLICITEULER if sc["iterator"] == "euler" else SolverType.RK4)
     gg.setGrainBoundaryMobility(sc["gg_M"])
     gg.LoadDistributionFunction(lambda R: np.exp(-(np.log(R / 2e-5) / 0.3) ** 2))
+    for ph, (mz, Kz) in (sc.get("zener") or {}).items():
+        gg.setZenerParameters(mz, Kz, phase=ph)
     bad = {}
 
     def watch(model, snap):
@@ -333,6 +335,10 @@ def _grain_case(draw):
 def _coupled_case(draw):
     sc = draw(scen.toy_binary_scenario(cap=120, max_phases=2, undersat=False))
     sc["gg_M"] = 10 ** draw(st.floats(-15, -11))
+    if draw(st.booleans()):
+        # Zener drag parameters, for all phases or for one of them (strong enough drag pins every boundary in some host steps)
+        target = draw(st.sampled_from(["all"] + [p["name"] for p in sc["phases"]]))
+        sc["zener"] = {target: [draw(st.sampled_from([1.0, 0.5, 2 / 3])), 10 ** draw(st.floats(-4, 1))]}
     return sc
 
 
